@@ -12,9 +12,9 @@
 package main
 
 import (
-	"os"
 	"fmt"
 	"math/rand"
+	"os"
 	"sort"
 	"strings"
 	"sync"
